@@ -144,6 +144,31 @@ def fix_atomic_specifiers(
     return decl
 
 
+def _copy_declarator_chain(typ: Any) -> Any:
+    """Copies the PtrDecl/ArrayDecl/FuncDecl nodes leading to a TypeDecl, and
+    the TypeDecl itself (but not the base type below it).
+    """
+    match typ:
+        case c_ast.TypeDecl():
+            return c_ast.TypeDecl(
+                typ.declname, list(typ.quals or []), typ.align, typ.type, typ.coord
+            )
+        case c_ast.PtrDecl():
+            return c_ast.PtrDecl(
+                list(typ.quals or []), _copy_declarator_chain(typ.type), typ.coord
+            )
+        case c_ast.ArrayDecl():
+            return c_ast.ArrayDecl(
+                _copy_declarator_chain(typ.type), typ.dim, typ.dim_quals, typ.coord
+            )
+        case c_ast.FuncDecl():
+            return c_ast.FuncDecl(
+                typ.args, _copy_declarator_chain(typ.type), typ.coord
+            )
+        case _:
+            return typ
+
+
 def _fix_atomic_specifiers_once(
     decl: c_ast.Decl | c_ast.Typedef,
 ) -> Tuple[c_ast.Decl | c_ast.Typedef, bool]:
@@ -168,15 +193,19 @@ def _fix_atomic_specifiers_once(
 
     assert isinstance(parent, c_ast.TypeDecl)
     assert grandparent is not None
-    if node.type.coord is None:
+    # The _Atomic(...) specifier is shared by all the declarators of a
+    # declaration (_Atomic(int) x, y;): give each of them its own copy of the
+    # declarator chain inside it, which is modified below.
+    inner = _copy_declarator_chain(node.type)
+    if inner.coord is None:
         # Preserve the declarator coord for _Atomic(T) so TypeDecl doesn't lose
         # its location when we replace the wrapper Typename.
-        node.type.coord = parent.coord
-    cast(Any, grandparent).type = node.type
-    if "_Atomic" not in node.type.quals:
-        node.type.quals.append("_Atomic")
-    if isinstance(node.type, (c_ast.TypeDecl, c_ast.PtrDecl)):
+        inner.coord = parent.coord
+    cast(Any, grandparent).type = inner
+    if "_Atomic" not in inner.quals:
+        inner.quals.append("_Atomic")
+    if isinstance(inner, (c_ast.TypeDecl, c_ast.PtrDecl)):
         # Keep the other qualifiers of the declaration (const _Atomic(int) x)
         # on the node that replaces the wrapper, in specifier order.
-        node.type.quals[:0] = [q for q in parent.quals or [] if q not in node.type.quals]
+        inner.quals[:0] = [q for q in parent.quals or [] if q not in inner.quals]
     return decl, True
